@@ -34,6 +34,11 @@ def xorBits (a b : List Bool) : List Bool := (a.zip b).map (fun p => xor p.1 p.2
 messages come in triples (m1, m2, m1 xor m2) so that linearity is observable -/
 def handleC02 (inp out : List String) : String :=
   match inp with
+  | ["bigstair", _r, _k] =>
+    -- a staircase matrix with more than 65536 message columns, judged by the harness on the implementation's output: staircase encoder
+    -- chosen (C02.staircase_iff), every word starts with its message and satisfies every check (C02.encode_valid)
+    verdict ["Staircase:codewords-ok"] out
+      (if out ≠ ["Staircase:codewords-ok"] then some ("wide-staircase-code-not-encoded-to-codewords-starting-with-the-message: " ++ " ".intercalate out) else none)
   | r :: c :: msgs =>
     match parseSM r c, msgs.mapM parseBools with
     | some h, some msgs =>
